@@ -44,12 +44,58 @@ SYM = ["JP {L}", "JPZ {L}", "JPNZ {L}", "JPC {L}", "JPNC {L}", "CALL {L}", "CALL
        "defl {L}", "MV Y, {L}"]
 DATA = ["defb 0x{b}", "defb 1, 2, 0x{b}", "defw 0x{w}", "defw 0x{w}, 0x{w}", "defl 0x{l}", "defs {n}", "defm \"{t}\""]
 NEAR = ("JP ", "JPZ ", "JPNZ ", "JPC ", "JPNC ", "CALL ")
+# single-statement forms covering the assembler's operand syntax (every addressing mode of the internal
+# memory, [r3] forms with increment/decrement/offset, [(n)] indirection, register pairs); the literals are
+# re-drawn per use (same digit count; internal addresses stay below the named registers at 0xD4)
+EXTRA_FORMS = [
+    "ADC (0x10), 0x02", "ADC (0x30), A", "ADC A, (0x20)", "ADC A, 0x01", "ADCL (0x10), (0x20)", "ADCL (0x30), A",
+    "ADD (0x10), 0x02", "ADD (0x30), A", "ADD A, (0x20)", "ADD A, (BP+0x50)", "ADD A, 0x01", "ADD A, IL",
+    "ADD BA, I", "ADD X, Y", "CMP (0x10), 0x02", "CMP (0x30), A", "CMP (0x40), (0x50)", "CMP (BP+PY), A",
+    "CMP A, 0x55", "CMP [0x12345], 0x02", "CMPP (0x10), (0x20)", "CMPP (0x40), X", "CMPW (0x10), (0x20)",
+    "CMPW (0x30), BA", "DADL (0x10), (0x20)", "DADL (0x30), A", "DEC (0x20)", "DEC S", "DSBL (0x40), (0x50)",
+    "DSBL (0x60), A", "DSLL (0x10)", "DSRL (0x20)", "EX (0x10), (0x20)", "EX (BP+0x10), (PY+0x20)", "EX X, Y",
+    "EXL (0x70), (0x80)", "EXP (0x50), (0x60)", "EXW (0x30), (0x40)", "INC (0x10)", "INC (PX+0xEC)", "INC A",
+    "JP (0x10)", "JP 0x1234", "JP S", "JPC 0x1234", "JPF 0xABCDE", "JPNC 0x1234", "JPNZ 0x1234", "JPZ 0x1234",
+    "JR +0x05", "JR -0x02", "JRC +0x05", "JRC -0x02", "JRNC +0x05", "JRNC -0x02", "JRNZ +0x05", "JRNZ -0x02",
+    "JRZ +0x05", "JRZ -0x02", "MV (0x10), (0x20)", "MV (0x10), A", "MV (0x10), [0x12345]", "MV (0x20), 0x55",
+    "MV (0x20), [X]", "MV (0x30), [(0x40)]", "MV (BP+0x10), (PY+0x20)", "MV A, (0x10)", "MV A, 0x42", "MV A, [--Y]",
+    "MV A, [0x12345]", "MV A, [S]", "MV A, [U]", "MV A, [X++]", "MV A, [X+4]", "MV A, [X]", "MV A, [Y]",
+    "MV BA, 0x1234", "MV X, 0x12345", "MV [(0x40)], (0x30)", "MV [0x12345], (0x20)", "MV [0x12345], A",
+    "MV [X], (0x20)", "MVP (0x20), 0x112233", "MVP (0x20), [X]", "MVP [X], (0x20)", "MVW (0x20), [X]",
+    "MVW (0x30), (0x40)", "MVW (0x30), 0x1122", "MVW (0x30), [(0x40)]", "MVW (0x30), [0x12345]",
+    "MVW [(0x40)], (0x30)", "MVW [X], (0x20)", "OR (0x10), 0x01", "OR (0x20), A", "OR (0x40), (0x50)",
+    "OR A, (0x30)", "OR A, 0x55", "OR [0x12345], 0x02", "PMDF (0x70), 0x03", "PMDF (0x80), A", "ROL (0x11)",
+    "ROL (BP+0x11)", "ROL (BP+PX)", "ROL (BP+PY)", "ROL (PX+0x11)", "ROL (PY+0x11)", "ROR (0x10)", "ROR (BP+0x10)",
+    "ROR (BP+PX)", "ROR (BP+PY)", "ROR (PX+0x10)", "ROR (PY+0x10)", "SBC (0x10), 0x02", "SBC (0x30), A",
+    "SBC A, (0x20)", "SBC A, 0x01", "SBCL (0x40), (0x50)", "SBCL (0x60), A", "SHL (0x13)", "SHL (BP+0x13)",
+    "SHL (BP+PX)", "SHL (BP+PY)", "SHL (PX+0x13)", "SHL (PY+0x13)", "SHR (0x12)", "SHR (BP+0x12)", "SHR (BP+PX)",
+    "SHR (BP+PY)", "SHR (PX+0x12)", "SHR (PY+0x12)", "SUB (0x10), 0x02", "SUB (0x30), A", "SUB A, (0x20)",
+    "SUB A, 0x01", "SUB A, IL", "SUB BA, I", "SUB X, Y", "TEST (0x10), 0x01", "TEST (0x20), A", "TEST A, 0x55",
+    "TEST [0x12345], 0x02", "XOR (0x10), 0x01", "XOR (0x20), A", "XOR (0x40), (0x50)", "XOR A, (0x30)",
+    "XOR A, 0x55", "XOR [0x12345], 0x02",
+]
 
 
 def batches(tier: str) -> List[Batch]:
     if tier == "quick":
-        return [Batch("hist", "py-asm", 320, 4)]
+        return [Batch("hist", "py-asm", 240, 4)]
     return [Batch("hist", "py-asm", 30000, 20)]
+
+
+def _vary(t: str, r: Rng) -> str:
+    import re
+
+    def sub(m):
+        digits = len(m.group(1))
+        before = t[max(0, m.start() - 4):m.start()]
+        if digits == 2 and (before.endswith("(") or before.endswith("+")):
+            return f"0x{r.below(0xD4):02X}"            # internal-memory offset
+        if t.startswith(("JR", "JRZ", "JRNZ", "JRC", "JRNC")):
+            return f"0x{r.range(1, 0x30):02X}"
+        if digits == 5:
+            return f"0x{r.below(0xFFFFC):05X}"
+        return f"0x{r.below(1 << (4 * digits)):0{digits}X}"
+    return re.sub(r"0x([0-9A-Fa-f]+)", sub, t)
 
 
 def _fill(t: str, r: Rng) -> str:
@@ -73,7 +119,10 @@ def _gen_program(r: Rng, good: bool) -> Dict[str, Any]:
     for _ in range(n):
         k = r.weighted([("nosym", 10), ("sym", 5), ("data", 4), ("section", 1), ("org", 1)])
         if k == "nosym":
-            stmts.append({"text": _fill(r.choice(NOSYM), r), "kind": "ins"})
+            if r.chance(1, 2):
+                stmts.append({"text": _vary(r.choice(EXTRA_FORMS), r), "kind": "ins"})
+            else:
+                stmts.append({"text": _fill(r.choice(NOSYM), r), "kind": "ins"})
         elif k == "sym":
             t = r.choice(SYM)
             if cur_sec == "bss" and t.startswith(NEAR):
@@ -203,8 +252,7 @@ def _model(prog: Dict[str, Any], symbols: Dict[str, int]) -> Dict[str, Any]:
         for lb in ("L0", "L1", "L2", "L3", "L4"):
             probe_text = probe_text.replace(lb, f"0x{addr & 0xF0000 | 0x10:X}")
         try:
-            bf = Assembler().assemble(f".ORG 0x{addr:X}\n    {probe_text}\n")
-            size = sum(len(seg.data) for seg in bf.segments)
+            size = len(_standalone(addr, probe_text))
             if text.lower().startswith("defs"):
                 size = int(text.split()[1])
         except Exception as e:
@@ -226,8 +274,7 @@ def _model(prog: Dict[str, Any], symbols: Dict[str, int]) -> Dict[str, Any]:
         if cross_page:
             break
         try:
-            bf = Assembler().assemble(f".ORG 0x{addr:X}\n    {text}\n")
-            data = b"".join(bytes(seg.data) for seg in bf.segments)
+            data = _standalone(addr, text)
         except Exception as e:
             return {"error": f"standalone assembly of {text!r} failed: {e}"[:200]}
         if sec == "bss":
@@ -235,6 +282,30 @@ def _model(prog: Dict[str, Any], symbols: Dict[str, int]) -> Dict[str, Any]:
         for i, b in enumerate(data):
             mem[addr + i] = b
     return {"labels": labels, "mem": sorted(mem.items()), "cross_page": cross_page}
+
+
+_STANDALONE: Dict[Tuple[int, str], Any] = {}
+
+
+def _standalone(addr: int, text: str) -> bytes:
+    """One statement assembled alone at its address by a fresh Assembler (memoised per process: the
+    result is a function of (address, text) — that it is, is what the `residue` oracle checks on the
+    real calls)."""
+    key = (addr, text)
+    hit = _STANDALONE.get(key)
+    if hit is None:
+        from sc62015.pysc62015.sc_asm import Assembler
+        try:
+            bf = Assembler().assemble(f".ORG 0x{addr:X}\n    {text}\n")
+            hit = b"".join(bytes(seg.data) for seg in bf.segments)
+        except Exception as e:
+            hit = e
+        if len(_STANDALONE) > 20000:
+            _STANDALONE.clear()
+        _STANDALONE[key] = hit
+    if isinstance(hit, Exception):
+        raise hit
+    return hit
 
 
 def _flatten(segs) -> List[Tuple[int, int]]:
